@@ -134,6 +134,12 @@ struct C05 : public Driver {
         return fo;
     }
 
+    static bool okRefEarly(const FormOut& r) { return r.status == 0 && !r.threw; }
+    static bool oddXmlVersion(const Json& plan) {
+        std::string doc = plan.str("doc"); if (plan.has("fault") && plan.at("fault").str("on") == "doc") doc = applySrcFault(doc, SrcFault::fromJson(plan.at("fault")));
+        size_t a = doc.find("<?xml version=\""); if (a != 0) return false; size_t b = doc.find('"', 15); if (b == std::string::npos) return false;
+        const std::string v = doc.substr(15, b - 15); return v != "1.0" && v != "1.1";
+    }
     static std::string dimDiff(const Json& a, const Json& b) {
         std::string d; for (const char* k : { "src", "ss", "target", "layer" }) if (a.str(k) != b.str(k)) { if (!d.empty()) d += "+"; d += std::string(k) + ":" + b.str(k); }
         return d.empty() ? "perturbation-only" : d;
@@ -167,6 +173,12 @@ struct C05 : public Driver {
             if (ref.status == 0 && !ref.threw && !refIsDocument && (o.isTree || f.str("src") != rf.str("src") || f.str("ss") != rf.str("ss"))) continue;
             bool okRef = ref.status == 0 && !ref.threw, okO = o.status == 0 && !o.threw;
             res.count("pairs_compared");
+            // An XML declaration naming a version other than 1.0 / 1.1 (a bit flip can produce "1.2"): Xerces' SAX scanner goes on, its DOM parser
+            // throws DOMException.  In the wrapper form that parser is the caller's own; in the parsed-xerces form it is the one the library uses.
+            if (okRefEarly(ref) && !(o.status == 0 && !o.threw) && oddXmlVersion(plan) && (f.str("src") == "wrapper" || f.str("src") == "parsed-xerces")) {
+                if (f.str("src") == "wrapper") { res.count("probe:caller-dom-parser-rejected-xml-version"); continue; }
+                res.violate("forms-disagree-status", "src:parsed-xerces|xml-version", "the document declares an XML version other than 1.0 / 1.1: the reference form succeeds, parseSource(useXercesDOM) fails [" + o.err.substr(0, 160) + "]"); continue;
+            }
             if (faulty) {
                 // every form must fail on a destructively faulted input, or all must succeed (a fault that left the input valid)
                 if (okRef != okO) res.violate("forms-disagree-under-fault", dim, "with the same " + plan.at("fault").str("kind") + " fault on the " + plan.at("fault").str("on") + " the reference form " + (okRef ? "succeeds" : "fails [" + ref.err.substr(0, 150) + "]") + " but form " + dim + (okO ? " succeeds" : " fails [" + o.err.substr(0, 150) + "]"));
@@ -193,11 +205,19 @@ struct C05 : public Driver {
                 // the feature unknown.  The Xerces-DOM-backed source forms are known to show the DocumentType node to node() tests: if the same pair
                 // of forms agrees once the DOCTYPE is taken out of the document, that node is what the difference is about.
                 if (feat != "doctype-node" && feat != "ns-axis" && plan.boolean("dtd") && (f.str("src") == "parsed-xerces" || f.str("src") == "wrapper")) {
-                    std::string doc = plan.str("doc"); size_t a = doc.find("<!DOCTYPE"), b = a == std::string::npos ? a : doc.find("]>", a);
+                    // (the bytes the forms actually saw: a fault on the document is applied first, then taken out of the plan, so that it does not land elsewhere)
+                    std::string doc = plan.str("doc"); const bool docFaulted = plan.has("fault") && plan.at("fault").str("on") == "doc";
+                    if (docFaulted) doc = applySrcFault(doc, SrcFault::fromJson(plan.at("fault")));
+                    size_t a = doc.find("<!DOCTYPE"), b = a == std::string::npos ? a : doc.find("]>", a);
                     if (b != std::string::npos) {
-                        Json p2 = plan; p2["doc"] = doc.substr(0, a) + doc.substr(b + 2); Result scratch;
-                        FormOut r2 = runForm(p2, rf, scratch), o2 = runForm(p2, f, scratch);
-                        if (r2.status == 0 && o2.status == 0 && !r2.threw && !o2.threw && canonOf(r2) == canonOf(o2)) { feat = "doctype-node"; res.count("attributed-by-difference:doctype-node"); }
+                        // two controlled variants of the document: without any DOCTYPE the forms must agree, and with an empty one (the node is there,
+                        // the declarations - entities, ID attributes - are not) they must still differ; only then is the node itself the cause
+                        Json p2 = plan; if (docFaulted) { Json o2 = Json::object(); for (auto& kv : p2.o) if (kv.first != "fault") o2[kv.first] = kv.second; p2 = o2; }
+                        Json p3 = p2; p2["doc"] = doc.substr(0, a) + doc.substr(b + 2); p3["doc"] = doc.substr(0, a) + "<!DOCTYPE doc []>" + doc.substr(b + 2); Result scratch;
+                        FormOut r2 = runForm(p2, rf, scratch), o2 = runForm(p2, f, scratch), r3 = runForm(p3, rf, scratch), o3 = runForm(p3, f, scratch);
+                        const bool agreeWithout = r2.status == 0 && o2.status == 0 && !r2.threw && !o2.threw && canonOf(r2) == canonOf(o2);
+                        const bool differWithEmpty = r3.status == 0 && o3.status == 0 && !r3.threw && !o3.threw && canonOf(r3) != canonOf(o3);
+                        if (agreeWithout && differWithEmpty) { feat = "doctype-node"; res.count("attributed-by-difference:doctype-node"); }
                     }
                 }
                 res.violate("tree-differs", which + "|" + feat, "form " + dim + " vs reference: " + d);
